@@ -488,6 +488,18 @@ def run(ck):
             if op1 != op2:
                 for perm in itertools.permutations(leaves):
                     exprs.append(("cmp", perm[0], [(op1, perm[1]), (op2, perm[2])]))
+    # signs: products with several negated factors next to their sign-normalised spellings, negative constants as bases of a
+    # power next to the negated power ((-2) ** t is not -2 ** t)
+    neg = lambda e: ("un", "USub", e)  # noqa: E731
+    mul = lambda x, y: ("bin", "Mult", x, y)  # noqa: E731
+    A, B, C3 = leaves
+    exprs += [mul(neg(A), neg(B)), neg(mul(A, B)), mul(A, B), mul(neg(A), B), mul(A, neg(B)), mul(neg(neg(A)), B), neg(mul(neg(A), B)),
+              mul(mul(neg(A), neg(B)), neg(C3)), neg(mul(mul(A, B), C3)), mul(mul(A, B), C3), mul(mul(neg(A), neg(B)), C3), mul(neg(A), mul(neg(B), neg(C3))),
+              ("bin", "Add", mul(neg(A), neg(B)), C3), ("bin", "Add", neg(mul(A, B)), C3)]
+    for base in (2, 3):
+        for ex in (("var", "a"), ("const", 2), ("const", 3)):
+            exprs += [neg(("bin", "Pow", ("const", base), ex)), ("bin", "Pow", neg(("const", base)), ex),      # -(2 ** t) and (-2) ** t
+                      ("bin", "Pow", ("const", base), ex), ("bin", "Pow", neg(A), ex), neg(("bin", "Pow", A, ex))]
     for f in FUNCS:
         if f != "abs":
             for perm in itertools.permutations(leaves, 2):
